@@ -646,3 +646,72 @@ def translate_elicitor(repo):
            "    let st := if memoize then {| memo := (%s, %s) :: memo st; cnt := cnt st; trace := trace st |} else st in\n"
            "    (st, %s)\n  end.\n" % ("\n  ".join(lines), key, mv, mv, inc, ev, key, key, key, ev, ev)]
     return "\n".join(out)
+
+
+# ---------------------------------------------------------------------------------------------------------------------
+# the recursive binary searches of the threshold rules (k-ARV, lambda-TSF, two-sided lambda-TSF) as query programs
+# ---------------------------------------------------------------------------------------------------------------------
+def _tr_bsearch(fn, tag):
+    params = [a.arg for a in fn.args.args]
+    if len(params) != 5: _fail(fn, "binary_search(i, lo, hi, scale, v) expected")
+    I, LO, HI, SC, VV = params
+    def is_name(e, n): return isinstance(e, ast.Name) and e.id == n
+    body = _body(fn)
+    if len(body) != 4: _fail(fn, "binary_search: four statements expected")
+    s1, s2, s3, s4 = body
+    cmpops = {ast.LtE: "<=?", ast.Lt: "<?", ast.Eq: "=?"}
+    ok = (isinstance(s1, ast.If) and not s1.orelse and len(s1.body) == 1 and isinstance(s1.body[0], ast.Return) and isinstance(s1.test, ast.Compare) and len(s1.test.ops) == 1
+          and type(s1.test.ops[0]) in cmpops and isinstance(s1.test.left, ast.BinOp) and isinstance(s1.test.left.op, ast.Sub)
+          and isinstance(s1.test.left.left, ast.Name) and isinstance(s1.test.left.right, ast.Name) and s1.test.left.left.id in (LO, HI) and s1.test.left.right.id in (LO, HI)
+          and _intconst(s1.test.comparators[0]) is not None and isinstance(s1.body[0].value, ast.Name) and s1.body[0].value.id in (LO, HI))
+    if not ok: _fail(s1, "if hi - lo <= 1: return lo expected")
+    env = {LO: "lo", HI: "hi"}
+    base_test = "(%s - %s %s %d)" % (env[s1.test.left.left.id], env[s1.test.left.right.id], cmpops[type(s1.test.ops[0])], _intconst(s1.test.comparators[0]))
+    base_ret = env[s1.body[0].value.id]
+    v = s2.value if isinstance(s2, ast.Assign) else None
+    ok = (v is not None and isinstance(s2.targets[0], ast.Name) and isinstance(v, ast.BinOp) and isinstance(v.op, ast.FloorDiv) and _intconst(v.right) is not None
+          and isinstance(v.left, ast.BinOp) and isinstance(v.left.op, ast.Add) and isinstance(v.left.left, ast.Name) and isinstance(v.left.right, ast.Name)
+          and v.left.left.id in env and v.left.right.id in env)
+    if not ok: _fail(s2, "mid = (lo + hi) // 2 expected")
+    MID = s2.targets[0].id
+    mid_expr = "(%s + %s) / %d" % (env[v.left.left.id], env[v.left.right.id], _intconst(v.right))
+    v = s3.value if isinstance(s3, ast.Assign) else None
+    ok = (v is not None and isinstance(s3.targets[0], ast.Name) and isinstance(v, ast.Call) and isinstance(v.func, ast.Attribute) and v.func.attr == "elicit"
+          and len(v.args) == 2 and is_name(v.args[0], I) and isinstance(v.args[1], ast.Subscript) and isinstance(v.args[1].value, ast.Name)
+          and isinstance(v.args[1].slice, ast.Tuple) and len(v.args[1].slice.elts) == 2 and is_name(v.args[1].slice.elts[0], I) and is_name(v.args[1].slice.elts[1], MID))
+    if not ok: _fail(s3, "u = <elicitor>.elicit(i, ranked_profile[i, mid]) expected")
+    U = s3.targets[0].id
+    env2 = dict(env); env2[MID] = "mid"
+    def reccall(st):
+        r = st[0].value if len(st) == 1 and isinstance(st[0], ast.Return) else None
+        ok = (r is not None and isinstance(r, ast.Call) and is_name(r.func, fn.name) and len(r.args) == 5 and is_name(r.args[0], I) and isinstance(r.args[1], ast.Name)
+              and isinstance(r.args[2], ast.Name) and r.args[1].id in env2 and r.args[2].id in env2 and is_name(r.args[3], SC) and is_name(r.args[4], VV))
+        if not ok: _fail(st[0] if st else fn, "return binary_search(i, a, b, scale, v) expected")
+        return "gen_bsearch_%s f rk i %s %s tau" % (tag, env2[r.args[1].id], env2[r.args[2].id])
+    t = s4.test if isinstance(s4, ast.If) else None
+    ok = (t is not None and isinstance(t, ast.Compare) and len(t.ops) == 1 and isinstance(t.ops[0], (ast.GtE, ast.Gt)) and is_name(t.left, U)
+          and isinstance(t.comparators[0], ast.BinOp) and isinstance(t.comparators[0].op, ast.Div) and is_name(t.comparators[0].left, VV) and is_name(t.comparators[0].right, SC))
+    if not ok: _fail(s4, "if u >= v / scale: ... else: ... expected")
+    test = "Qle_bool tau u" if isinstance(t.ops[0], ast.GtE) else "negb (Qle_bool u tau)"
+    return ("(* binary_search at line %d; tau stands for the float v / scale computed by the code (threshold oracle) *)\n"
+            "Fixpoint gen_bsearch_%s (fuel : nat) (rk : list Z) (i lo hi : Z) (tau : Q) : prog Z :=\n"
+            "  match fuel with O => Ret lo | S f =>\n"
+            "    if %s then Ret %s else\n"
+            "    let mid := %s in\n"
+            "    Ask (i, nth (Z.to_nat mid) rk 0) (fun u => if %s then %s else %s)\n"
+            "  end.\n" % (fn.lineno, tag, base_test, base_ret, mid_expr, test, reccall(s4.body), reccall(s4.orelse)))
+
+def translate_bsearch(repo):
+    out = ["(* GENERATED by harness/translate.py from the three binary_search functions of the elicitation rules. Do not edit. *)",
+           "From Coq Require Import ZArith QArith List Bool.", "Import ListNotations.", "From SCK Require Import ElicitM.", "Local Open Scope Z_scope.", ""]
+    for tag, f, cls, meth in (("KARV", "elicitation_voting.py", "KARV", "get_simulated_cardinal_profile"),
+                              ("TSF", "elicitation_allocation.py", "LambdaTSF", "get_simulated_cardinal_profile"),
+                              ("Double", "elicitation_matching.py", "DoubleLambdaTSF", "get_simulated_cardinal_profiles")):
+        src = open(os.path.join(repo, "socialchoicekit", f)).read()
+        mod = ast.parse(src)
+        m = _find(_find(mod.body, ast.ClassDef, cls).body, ast.FunctionDef, meth)
+        inner = [n for n in ast.walk(m) if isinstance(n, ast.FunctionDef) and n.name == "binary_search"]
+        if len(inner) != 1: _fail(m, "exactly one inner binary_search expected in %s.%s" % (cls, meth))
+        out.append("(* %s.%s, %s (sha256 %s) *)" % (cls, meth, f, hashlib.sha256(src.encode()).hexdigest()[:16]))
+        out.append(_tr_bsearch(inner[0], tag))
+    return "\n".join(out)
